@@ -67,8 +67,3 @@ impl Memory<'_> {
             forall|i: int| source@.len() <= i < n ==> r.0@[i] == val,
     { unimplemented!() }
 }
-
-// core `abs` on the signed word (no vstd specification): trusted
-pub assume_specification [@SW@::abs] (x: @SW@) -> (r: @SW@)
-    requires x > @SW@::MIN,
-    ensures r as int == (if x < 0 { -(x as int) } else { x as int });
